@@ -74,6 +74,7 @@ type BuildOpt struct {
 	RouteOrder [][]int
 	Options    bool // install the container's OPTIONSFilter
 	Dynamic    bool
+	Switched   bool // configure the other router first, then switch to Router (configuration history)
 }
 
 // Build constructs a fresh real container through the public API.
@@ -85,6 +86,13 @@ func Build(t rm.Table, o BuildOpt) (b *Built) {
 		}
 	}()
 	c := restful.NewContainer()
+	if o.Switched {
+		if o.Router == rm.JSR311 {
+			c.Router(restful.CurlyRouter{})
+		} else {
+			c.Router(restful.RouterJSR311{})
+		}
+	}
 	if o.Router == rm.JSR311 {
 		c.Router(restful.RouterJSR311{})
 	} else {
